@@ -221,7 +221,6 @@ func VerifH_C07_calls() {
 	}
 	accepted := class == vp.NoPanic
 	if !accepted {
-		vp.Observe("error", verifErrText(perr))
 	}
 	vp.Fact("fn", fi)
 	vp.Fact("goaccepts", verifB2I(goOK))
